@@ -18,7 +18,7 @@ def fmt(p):
     return s + '0' if s.endswith('.') else s
 
 
-def gen_network(rnd, k, names=None):
+def gen_network(rnd, k, names=None, near_det=False):
     """returns dict(vars=[(name, domain, parents, cpt {parent value tuple: [Fraction]})]) in topological order"""
     names = names or ['A', 'B', 'C', 'D'][:k]
     vs = []
@@ -29,6 +29,10 @@ def gen_network(rnd, k, names=None):
         for comb in itertools.product(*[vs[j][1] for j in parents]):
             cuts = sorted(rnd.sample(range(1, 20), len(dom) - 1))
             ps = [Fraction(b - a, 20) for a, b in zip([0] + cuts, cuts + [20])]
+            if near_det and rnd.random() < 0.35:
+                # an almost deterministic row: one entry within the acceptance tolerance of 1, the rest of the mass must not be lost
+                eps = Fraction(1, 2000); k_ = rnd.randrange(len(dom)); j_ = (k_ + 1) % len(dom)
+                ps = [Fraction(0)] * len(dom); ps[k_] = 1 - eps; ps[j_] = eps
             cpt[comb] = ps
         vs.append((nm, dom, parents, cpt))
     return vs
@@ -83,7 +87,7 @@ def items(tier, seed):
         k = rnd.choice([2, 3, 3, 4] if tier != 'quick' else [2, 3, 3])
         names = rnd.choice([None, ['Rain-1', 'Wet_Grass', 'X2', 'smoke'][:k], ['tub-er', 'tuber', 'out', 'Out'][:k], ['Smoke', 'smoke', 'S-moke'][:k]])
         if i == 0: names = ['tub-er', 'tuber', 'out'][:k]        # names colliding after sanitising
-        vs = gen_network(rnd, k, names)
+        vs = gen_network(rnd, k, names, near_det=(i % 3 == 1))
         its.append(dict(name=f'net{i}', kind='net', vs=[(n, d, p, {','.join(c): [str(x) for x in ps] for c, ps in cpt.items()}) for n, d, p, cpt in vs], budget=200))
     its.append(dict(name='acceptance', kind='accept', budget=200))
     for it in its: it['src'] = it['name'] + str(it.get('vs', ''))
